@@ -5,5 +5,5 @@ CONSTANT NTasks <- NT
 CONSTANT UNIQUE_BUSY = TRUE
 INVARIANT NoLostTask
 CHECK_DEADLOCK FALSE
-CONSTANT PUBLISH_GUARDED = TRUE
-CONSTANT CLEAR_CHECKED = TRUE
+CONSTANT PUBLISH_GUARDED = FALSE
+CONSTANT CLEAR_CHECKED = FALSE
